@@ -27,6 +27,8 @@ import CE.Props.C10
     are appended, an error other than "input ended" reappears unchanged, and at "input ended" what
     had been delivered (an array's begin and chunk events, say) is delivered again first
     (CE/Cbe/Prefix.lean: `ext_decodeOne` for all 30 token kinds, `ext_decodeChunks` by induction).
+  * `cbe_truncation_fails_only_with_end_of_input` — and the cut never produces another kind of
+    error than "input ended" (an error of any other kind persists under every continuation).
   The value-level prefix order is decided by the oracle of `bin/check C09` on the
   implementation (the builders are not modelled).
 -/
@@ -284,6 +286,12 @@ example : (encPosInt 65535).length = 3 ∧ (encNegInt (2 ^ 63)).length = 9 := by
 theorem cbe_truncation_delivers_a_prefix (doc : Bytes) (k : Nat) :
     CE.Cbe.delivered (CE.Cbe.decode (doc.take k)) <+: (CE.Cbe.decode doc).1 :=
   CE.Cbe.truncation_delivers_a_prefix doc k
+
+/-- a cut never manufactures a different failure: a document that decodes without error, cut anywhere,
+    stops cleanly between two tokens or fails with "input ended" -/
+theorem cbe_truncation_fails_only_with_end_of_input (doc : Bytes) (k : Nat) (h : (CE.Cbe.decode doc).2 = none) :
+    (CE.Cbe.decode (doc.take k)).2 = none ∨ (CE.Cbe.decode (doc.take k)).2 = some .eof :=
+  CE.Cbe.truncation_error_is_eof doc k h
 
 /-- non-vacuity: a list holding a 3-byte string cut inside the string data has delivered the document
     head, the list and the string's begin and chunk events -/
